@@ -825,7 +825,13 @@ func (c *Ctx) protectListFreshRule(r *Report, rule string, em *ssa.Function) {
 				case isNilConst(x.Val):
 					evs = append(evs, ev{ins, "nil"})
 				case isAppendCall(x.Val) != nil:
-					evs = append(evs, ev{ins, "append"})
+					if base := isAppendCall(x.Val).Call.Args[0]; isNilConst(base) || freshRoot(base) {
+						evs = append(evs, ev{ins, "nil"}) // a list built from nothing: new storage
+					} else {
+						evs = append(evs, ev{ins, "append"})
+					}
+				case freshRoot(x.Val):
+					evs = append(evs, ev{ins, "nil"}) // a literal / freshly made list: new storage
 				default:
 					evs = append(evs, ev{ins, "other"})
 				}
@@ -872,7 +878,13 @@ func (c *Ctx) protectListFreshRule(r *Report, rule string, em *ssa.Function) {
 		}
 	}
 	if firstAppend == nil {
-		r.undecided(rule, "ike.encryptMsg", c.Pos(em.Pos()), "no first append of the new payload list found")
+		for _, e := range evs {
+			if e.kind == "nil" {
+				r.ok(rule, "ike.encryptMsg: "+c.SrcExpr(e.ins), c.InstrPos(e.ins), "the new payload list is made from nothing (nil / a fresh list); nothing is appended onto the old one", true)
+				return
+			}
+		}
+		r.undecided(rule, "ike.encryptMsg", c.Pos(em.Pos()), "no write of the new payload list found")
 		return
 	}
 	for _, e := range evs {
